@@ -120,6 +120,25 @@ func (v *VerifCodec) ApplyMuts(u *MsgSrvUpdateMuts) bool {
 	return v.C.clockUpdateMutations(u)
 }
 
+// Rehello runs the handshake again, as a reconnect does: the real RemoteHello on
+// the server side, then the client's mirror is set from the answer.
+func (v *VerifCodec) Rehello() error {
+	resp := &MsgSrvHello{}
+	err := v.S.RemoteHello(nil, &MsgCliHello{Id: "verif-cli",
+		SyncSchema: v.S.syncSchema, SyncMutations: v.S.syncMutations,
+		AllowedStates: v.S.syncAllowedStates, SkippedStates: v.S.syncSkippedStates,
+		ShallowClocks: v.S.syncShallowClocks}, resp)
+	if err != nil {
+		return err
+	}
+	export := resp.Serialized
+	v.C.netMachInt.Lock()
+	v.C.netMachInt.UpdateClock(slices.Clone(export.Time), export.QueueTick,
+		export.MachineTick)
+
+	return nil
+}
+
 // Mirror returns the client's copy of the clocks.
 func (v *VerifCodec) Mirror() (am.Time, uint64, uint32) {
 	nm := v.C.NetMach
